@@ -975,12 +975,11 @@ func CliTargetCases(c *Ctx, fam *report.Family, bin string) {
 		listing := cliListing(dir)
 		in := map[string]any{"case": cs, "packager": f, "config": y, "args": append([]string{"package"}, p.args...), "exit": code, "output": out, "listing_after": listing}
 		if p.want == "" {
-			const msg = "a packager must be specified"
 			switch {
 			case code == 0:
 				find(cs, fmt.Sprintf("`%s` (no packager, target is a directory, empty or without extension) exits 0", cmdline), in)
-			case !strings.Contains(out, msg):
-				find(cs, fmt.Sprintf("`%s` fails without the message %q: %q", cmdline, msg, out), in)
+			case strings.TrimSpace(out) == "":
+				find(cs, fmt.Sprintf("`%s` fails without saying anything", cmdline), in)
 			case !sameList(listing, append([]string{"nfpm.yaml"}, p.extra...)):
 				find(cs, fmt.Sprintf("`%s` fails but leaves files behind: %v", cmdline, listing), in)
 			}
